@@ -346,6 +346,9 @@ class ScoredCollector(Collector):
         self.replaced_times = 0
         # Number of blocks skipped by quality optimizations (for debugging)
         self.skipped_times = 0
+        # Whether quality optimizations may have hidden matching documents
+        # from this collector
+        self.used_quality = False
 
     def sort_key(self, sub_docnum):
         return 0 - self.matcher.score()
@@ -391,6 +394,10 @@ class ScoredCollector(Collector):
                 if replacecounter == 0 or self.minscore != minscore:
                     self.matcher = matcher = matcher.replace(minscore or 0)
                     self.replaced_times += 1
+                    if minscore:
+                        # The replacement may have dropped documents that can't
+                        # make the top N, so we are no longer seeing every match
+                        self.used_quality = True
                     if not matcher.is_active():
                         break
                     usequality = self._use_block_quality()
@@ -435,8 +442,6 @@ class TopCollector(ScoredCollector):
         self.limit = limit
         self.usequality = usequality
         self.total = 0
-        # Whether block quality optimizations were enabled for any segment
-        self.used_quality = False
 
     def _use_block_quality(self):
         use = (self.usequality
